@@ -189,6 +189,43 @@ pub fn race(a: &Args) {
                     pg::leave_scoped(sc.clone(), g.clone(), vec![bb.get_cell()]);
                 }
             }
+            "leave_rejoin" => {
+                // g = {h1..hk, a}; one thread makes everybody leave (a last in the list), another re-joins a as soon as it is gone; then a exits:
+                // an exited actor must be in no group (its reverse index must still know the re-joined group)
+                let g = groups[0].clone();
+                let mut helpers = Vec::new();
+                for _ in 0..k {
+                    helpers.push(rt.block_on(Actor::spawn(None, Plain, ())).unwrap());
+                }
+                let mut everybody: Vec<ActorCell> = helpers.iter().map(|(h, _)| h.get_cell()).collect();
+                everybody.push(aa.get_cell());
+                pg::join_scoped(sc.clone(), g.clone(), everybody.clone());
+                let a_id = aa.get_id();
+                let (sc2, g2, a2) = (sc.clone(), g.clone(), aa.get_cell());
+                let th = std::thread::spawn(move || {
+                    for _ in 0..2_000_000 {
+                        if !pg::get_scoped_members(&sc2, &g2).iter().any(|c| c.get_id() == a_id) {
+                            pg::join_scoped(sc2.clone(), g2.clone(), vec![a2.clone()]);
+                            return;
+                        }
+                    }
+                });
+                pg::leave_scoped(sc.clone(), g.clone(), everybody);
+                th.join().unwrap();
+                aa.stop(None);
+                rt.block_on(async {
+                    let _ = ah.await;
+                });
+                if pg::get_scoped_members(&sc, &g).iter().any(|c| c.get_id() == a_id) {
+                    bad.push(format!("iteration {} (leave racing with a re-join, then exit): the stopped actor is still a member of {}", it, g));
+                }
+                for (h, hh) in helpers {
+                    h.stop(None);
+                    rt.block_on(async {
+                        let _ = hh.await;
+                    });
+                }
+            }
             "leave_join" | "join_leave" => {
                 let lj = mode == "leave_join";
                 for g in &groups {
